@@ -123,6 +123,30 @@ FORMATS = [
 ]
 
 
+TEMPLATE_BASE = """\
+library: Tmpl
+cxx_header: tmpl.hpp
+options:
+  wrap_python: false
+  wrap_lua: false
+declarations:
+- decl: template<typename T> class Box
+  cxx_template:
+  - instantiation: <int>
+  - instantiation: <double>
+  declarations:
+  - decl: Box()
+  - decl: ~Box()
+  - decl: void put(T value)
+    doxygen:
+      brief: store a value
+  - decl: T get()
+    doxygen:
+      brief: fetch the value
+  - decl: void label(const std::string &text, int *status +intent(out))
+"""
+
+
 def node_at(tree, path):
     n = tree
     for p in path:
@@ -159,7 +183,8 @@ def placement_pair(base, kind, name, value, container, containers=None):
 
 def compare_case(args):
     """Generate two descriptions; compare the output directories."""
-    workdir, label, da, db, argv_a, argv_b, comment_only = args
+    workdir, label, da, db, argv_a, argv_b, comment_only = args[:7]
+    only = args[7] if len(args) > 7 else None
     ra, ta = gen.gen_tree(os.path.join(workdir, "a"), da, argv_a)
     rb, tb = gen.gen_tree(os.path.join(workdir, "b"), db, argv_b)
     shutil.rmtree(workdir, ignore_errors=True)
@@ -168,6 +193,11 @@ def compare_case(args):
             return (label, "both-rejected", None)
         return (label, "bad", "generation: first %s %s %s / second %s %s %s" % (
             ra.status, ra.exc, (ra.msg or "")[:150], rb.status, rb.exc, (rb.msg or "")[:150]))
+    if only:
+        ta = {k: v for k, v in ta.items() if only in k}
+        tb = {k: v for k, v in tb.items() if only in k}
+        if not ta:
+            return (label, "bad", "no generated file belongs to %s" % only)
     if comment_only:
         ta = {k: gen.strip_comments(k, v).encode() for k, v in ta.items()}
         tb = {k: gen.strip_comments(k, v).encode() for k, v in tb.items()}
@@ -324,6 +354,25 @@ def run(ctx):
                 continue
             a, b = placement_pair(base_c, kind, name, value, container, CONTAINERS_C)
             add(("placement", kind, name, "C-" + container), a, b, comment_only=name in COMMENT_ONLY)
+    # (1b) instantiations of a class template are scopes of their own: options on one instantiation leave the sibling
+    # untouched, and options on every instantiation equal options on the class
+    tbase = yaml.safe_load(TEMPLATE_BASE)
+    for kind, name, value in settings:
+        if kind != "options" or name in ("F_name_generic_template",):
+            continue
+        def with_opts(which):
+            d = copy.deepcopy(tbase)
+            cls = d["declarations"][0]
+            if which == "class":
+                cls.setdefault("options", {})[name] = value
+            else:
+                for inst in cls["cxx_template"]:
+                    if which == "each" or inst["instantiation"] == which:
+                        inst.setdefault("options", {})[name] = value
+            return d
+        k[0] += 1
+        jobs.append((os.path.join(wd, "j%d" % k[0]), ("template-sibling", name), with_opts("<int>"), with_opts(None), [], [], name in COMMENT_ONLY, "Box_double"))
+        add(("template-each", name), with_opts("each"), with_opts("class"), comment_only=name in COMMENT_ONLY)
     # sibling unaffected: setting on one container leaves functions outside it byte-identical is implied by (1) both ways
     # (2)
     for site, inline, plain, extra in ATTR_CASES:
@@ -406,6 +455,12 @@ def run(ctx):
             elif kind == "cli-vs-yaml":
                 key = "cli-vs-yaml %s" % label[1]
                 what = "options split %s (1 = on the command line, order %s) differs from all-YAML:\n%s" % (label[1], [o[1] for o in OPTSET], info)
+            elif kind == "template-sibling":
+                key = "template-sibling %s" % label[1]
+                what = "option %s on the <int> instantiation of a class template changes the files of the <double> instantiation:\n%s" % (label[1], info)
+            elif kind == "template-each":
+                key = "template-each %s" % label[1]
+                what = "option %s on every instantiation differs from the same option on the class template:\n%s" % (label[1], info)
             elif kind == "blocks":
                 key = "blocks %s" % label[1]
                 what = "grouping %s into empty blocks changes the output:\n%s" % (label[1], info)
